@@ -24,6 +24,25 @@ RICH = {
         "/w/inc/x.td": 'include "y.td"\nclass X : Y;\n',
         "/w/inc/y.td": 'class Y { int y = 1; }\n',
     },
+    # overrides: uses of a field before and after a `let` of it in the same record, in a subclass, through an included class;
+    # the same identifier at the same offset in two files
+    "override": {
+        "/w/main.td": 'include "lib.td"\nclass B { int x = 1; int y = x; string nm = "b"; }\nclass C : B { int w = x; let x = 2; int z = x; }\n'
+                      'def d : B { int a = x; let x = 3; int b = x; let nm = "d"; string q = nm; }\n'
+                      'def e : L { int a = lx; let lx = 3; int b = lx; int c = ly; }\ndef same : L;\ndef f : C { let x = 4; int k = x; let x = 5; int m = x; }\n',
+        "/w/lib.td": 'class L { int lx = 1; int ly = lx; }\ndef same : L;\ndef g : L { let lx = 2; int h = lx; }\n',
+    },
+    # shadowing across kinds: an outer variable and an inner field / template argument of the same name
+    "shadow": {
+        "/w/main.td": 'defvar n = 1;\nclass A<int n> { int v = n; }\nclass F { int n = 2; int u = n; }\nforeach m = [1, 2] in {\n  def r#m { int m = 3; int t = m; }\n}\n'
+                      'multiclass MC<int n> { def _a { int q = n; } defvar k = n; }\ndef o { int p = n; }\nlet n = 5 in def l : F { int s = n; }\n',
+    },
+    # non-ASCII text in the trivia that follows a closing token, an include path, the end of the file
+    "trivia": {
+        "/w/main.td": 'include "sub.td" /* 日本語 */\nclass A {\n  int x = 1;\n}\n// 日本語のコメント\nforeach i = [1] in {\n  def d#i;\n} // ü€\U0001d11e\n'
+                      '#ifdef NOPE\n日本語 tokens ü\n#endif\nmulticlass M { def a; } /*é*/\nif 1 then {\n  def t;\n} /* 日本 */ else {\n  def u;\n}\n// 終わり',
+        "/w/sub.td": 'class S {\n}\n// 日本語',
+    },
     "stress": {
         "/w/main.td": 'class A : A { let x = 1; }\nclass B;\nclass B<int n> : B { int n2 = n; }\nclass C<int C> { int C2 = C; }\ndef C : C<1>;\ndef d { int d = 1; int e = d; }\nclass F { int f = f; }\ndef : F;\ndef : F { let f = 2; }\ndefm : Nope<1>;\ndefm named : Nope;\nmulticlass M2 : M2 { def x; }\nmulticlass M3<int a> : M2 { defm y : M3<a>; }\nlet nosuch = 1 in def q;\nclass G<int g = g> ;\nclass H : G<1, 2, 3>, G<"s">, Missing<1>;\ndef h { int a = !add(1); int b = !add(1, "s"); int c = nope; int e = h.a.b; list<int> l = [1, "a"]; int s = l[0][1]; }\nforeach i = i in def r#i;\nforeach k = [] in def;\ndefset list<Missing> ds = { def in_ds; }\ndefset int bad = { }\ndefvar v = v;\ndefvar v = 1;\nassert v, v;\n',
     },
@@ -63,6 +82,15 @@ def decorate(rng, text):
     return t
 
 
+def lattice(depth):
+    files = {"/w/main.td": 'include "l1a.td"\ninclude "l1b.td"\ndef top : K%da;\n' % depth}
+    for i in range(1, depth + 1):
+        for side in "ab":
+            nxt = 'include "l%da.td"\ninclude "l%db.td"\n' % (i + 1, i + 1) if i < depth else ""
+            files["/w/l%d%s.td" % (i, side)] = nxt + "class K%d%s;\n" % (i, side)
+    return files
+
+
 def workspaces(tier, seed, programs):
     """yields (tag, item) -- item = {files, root, ...} for the harness kind 'analysis'"""
     quick = tier == "quick"
@@ -90,6 +118,10 @@ def workspaces(tier, seed, programs):
         for _ in range(10 if quick else 60):
             f2 = {p: decorate(rng, t) for p, t in files.items()}
             add("rich-decorated:" + name, f2, "/w/main.td")
+    # layered headers: two per layer, each including both of the next layer (2n+1 files, 2^n include paths): every file is
+    # indexed once, so the answer comes at once however deep the lattice is
+    for depth in (3, 12, 28):
+        add("lattice:%d" % depth, lattice(depth), "/w/main.td")
     for s in STRESS_SNIPPETS:
         add("stress", {"/w/main.td": s}, "/w/main.td")
         add("stress", {"/w/main.td": 'include "lib.td"\n' + s, "/w/lib.td": s}, "/w/main.td")
